@@ -119,6 +119,19 @@ def check(fx, rep, tier):
             rep.oblige(False, "R13.5", f"answer-used-as-condition:{key_base}", w, "the watchdog's answer is not used directly as a branch condition")
             continue
         conj = split_and(iff["cond"])
+        # nested form `if counter % interval == 0 { if should_stop() { .. } }`: the enclosing ifs (then-branches, up to
+        # the loop) contribute their conjuncts
+        seen_iff = False
+        for anc, key in reversed(ps):
+            if anc is iff:
+                seen_iff = True
+                continue
+            if not seen_iff:
+                continue
+            if anc.get("k") in ("Loop", "Closure"):
+                break
+            if anc.get("k") == "If" and key == "then" and not anc.get("exp") and "Desugar" not in str(anc.get("source", "")):
+                conj = conj + split_and(anc["cond"])
         cadence = None
         for c in conj:
             r = rem_eq_zero(c)
